@@ -7,7 +7,7 @@
    Entries(1,3); it is evaluated against the implementation on every run of the check (witness case W0 of the
    harness; too large to be a pleasant kernel computation here, although [vm_compute] does it in seconds). *)
 From Coq Require Import NArith List Bool.
-From OG Require Import C17.Model C17.Corr C17.Refine C17.Inv C17.Clobber.
+From OG Require Import C17.Model C17.Corr C17.Refine C17.Inv C17.Clobber C17.Tear.
 Import ListNotations.
 Open Scope N_scope.
 
@@ -90,3 +90,34 @@ Theorem C17_clear_error_swallowed_refuted :
       rep' = true /\ abs d1' = abs swallow_d).
 Proof. vm_compute. repeat split. Qed.
 Print Assumptions C17_clear_error_swallowed_refuted.
+
+(* Open findings of the tree, as far as the models express them (Tear.v). *)
+
+(* C17-clear-torn-pages: the clearing write, bottom-up in one call, cut after two of seven slots: empty slots followed by
+   stale ones; the binary search answers 8 (LastIndex = the stale entry 8), a reader finds entry 1 and the hole *)
+Theorem C17_clear_cut_refuted :
+  let f := clear_cut 1 3 tear_file in
+  first_empty_bin tear_params tear_file = 8 /\ first_empty_bin tear_params f = 8 /\ first_empty_slot tear_params f = 1
+  /\ map e_index (file_entries f) = [1] /\ s_index (slot_at f 7) = 8.
+Proof. exact clear_cut_refuted. Qed.
+
+(* C17-delete-order-hole: removing the later files oldest first, killed after the first of two removals *)
+Theorem C17_remove_oldest_first_refuted :
+  concat ([[1; 2]] ++ removed_oldest_first 1 [[3; 4]; [5; 6]]) = [1; 2; 5; 6]
+  /\ forall n, firstn n (concat [[1; 2]; [3; 4]; [5; 6]]) <> [1; 2; 5; 6].
+Proof. exact remove_oldest_first_hole. Qed.
+
+(* C17-meta-torn-update: the snapshot record written with four calls: every crash point strictly inside is a mixture *)
+Theorem C17_meta_several_writes_refuted :
+  let old := mkmrec 10 100 5 1 in let new := mkmrec 12 200 9 2 in
+  forall k, (0 < k < 4)%nat -> mcrash k (snap_writes_current new) old <> old /\ mcrash k (snap_writes_current new) old <> new.
+Proof. exact meta_several_writes_refuted. Qed.
+
+(* not a finding (a 32-byte record inside one page is not torn by the death of a process), but the reason why the
+   claim "any byte prefix" cannot be made: 15 bytes of a slot record decode as a live slot with a foreign index *)
+Theorem C17_slot_byte_tear_refuted :
+  let s := mkslot 7 4660 0 1048576 in
+  let t := slot_dec (torn_bytes 15 (slot_enc zero_slot) (slot_enc s)) in
+  s_index t = 4608 /\ s_index t <> 0 /\ s_index t <> s_index s /\ s_off t = 0.
+Proof. exact slot_byte_tear_refuted. Qed.
+Print Assumptions C17_clear_cut_refuted.
